@@ -30,6 +30,8 @@ import numpy as np
 from engines import C12_heap as H
 from engines import C12_args as A
 from engines import C12_writes as W
+from engines import C12_share as S
+from engines import C12_ctors as K
 
 PROPERTY = 'C12'
 LEVEL = 'proof'
@@ -38,7 +40,8 @@ THEOREMS = [P + n for n in (
     'exec_frame', 'step_frame', 'step_preserves_sep', 'frame', 'frame_history',
     'fresh_producer_sep', 'fresh_producer_safe', 'copy_is_fresh',
     'shared_dict_counterexample', 'rebind_makes_shared_dict_harmless', 'transform_inplace_counterexample',
-    'concat_reorders_argument', 'shared_write_interferes')]
+    'concat_reorders_argument', 'shared_write_interferes',
+    'fresh_producer_sep_side', 'ctor_fresh', 'ctor_safe', 'produce_content_fresh', 'ctor_content')]
 RULE = ('one case = (public callable found by introspection, argument seed, history of documented '
         'in-place operations on components of the result and of the arguments); arguments are built '
         'from the repo\'s own types by seeded factories (list- and array-valued descriptors, signed '
@@ -48,11 +51,18 @@ RULE = ('one case = (public callable found by introspection, argument seed, hist
         'with the Lean compile; distinct = distinct (callable, argument seed, history)')
 DISC = 'rebind'            # write discipline of reorder / sort_by / append on the current tree
 WRITES = '@write-sets'     # pseudo-case: write sets of the mutators, source text vs Lean `compile`
-BRANCHES = ['arg:nan:none', 'arg:nan:common', 'arg:nan:per-rdm',
+CTOR_SPECS = '@ctor-specs'  # pseudo-case: attribute provenance of the RDMs constructors, source text vs Lean `ctorFields`
+PSEUDO = (WRITES, CTOR_SPECS)
+BRANCHES = ['arg:container:0', 'arg:container:1', 'arg:container:2', 'arg:container:many', 'arg:container:bare',
+            'arg:form:list', 'arg:form:tuple', 'arg:form:varargs', 'session:pair',
+            'arg:stack:1', 'arg:stack:2', 'arg:stack:many', 'arg:remove_mean:true', 'arg:remove_mean:false', 'arg:descriptor:none',
+            'arg:nan:none', 'arg:nan:common', 'arg:nan:per-rdm',
             'arg:weights:2d', 'arg:weights:1d', 'arg:weights:name-2d', 'arg:weights:name-1d', 'arg:weights:none',
             'arg:sigma_k:none', 'arg:sigma_k:matrix', 'arg:sigma_k:vector',
             'arg:noise:array', 'arg:theta:array', 'arg:pattern_idx:array',
-            'tie:write-sets', 'call:returned', 'call:raised', 'side:result-op', 'side:source-op',
+            'tie:write-sets', 'tie:ctor-specs', 'tie:ctor:getitem', 'tie:ctor:subset', 'tie:ctor:subsample',
+            'tie:ctor:subset_pattern', 'tie:ctor:subsample_pattern', 'tie:ctor:copy', 'tie:ctor:concat',
+            'call:returned', 'call:raised', 'side:result-op', 'side:source-op',
             'op:fill', 'op:reorder', 'op:sort_by', 'op:append', 'op:ds_sort_by',
             'result:rdms', 'result:dataset', 'result:array', 'result:scalar-or-other']
 ASSUMPTIONS = [
@@ -74,14 +84,48 @@ def callables():
     return _CALLABLES
 
 
+# helpers whose documented contract is to update one designated argument (the *receiver*): they
+# are exercised like every other callable, but the receiver is taken out of the source side —
+# every other argument must stay unchanged and independent of the result
+RECEIVER = {
+    'rsatoolbox.util.descriptor_utils.append_descriptor': 'args[0]',
+    'rsatoolbox.util.descriptor_utils.dict_to_list': 'args[0]',
+    'rsatoolbox.util.file_io.remove_file': 'args[0]',
+    'rsatoolbox.util.vis_utils.Weighted_MDS.fit': 'self',
+    'rsatoolbox.util.vis_utils.Weighted_MDS.fit_transform': 'self',
+}
+assert set(RECEIVER) == set(H.INPLACE_BY_CONTRACT)
+
+
 def producers():
     """callables that are checked; the documented in-place operations are the alphabet instead"""
-    out = []
-    for q in sorted(callables()):
-        if q in H.MUTATORS or q in H.INPLACE_BY_CONTRACT:
-            continue
-        out.append(q)
-    return out
+    return [q for q in sorted(callables()) if q not in H.MUTATORS]
+
+
+def _without_receiver(q, source):
+    r = RECEIVER.get(q)
+    if r == 'self':
+        return dict(source, self=None)
+    if r == 'args[0]':
+        return dict(source, args=[None] + list(source['args'][1:]))
+    return source
+
+
+PAIR_CLASSES = ['rsatoolbox.rdm.rdms.RDMs.', 'rsatoolbox.data.dataset.Dataset.',
+                'rsatoolbox.data.dataset.TemporalDataset.']
+
+
+def pair_families(cov):
+    """per class: the value-returning methods that have no known finding of their own (accessors
+       returning internal storage are recorded already; pairing them would only repeat that)"""
+    dirty = {k.split('|')[0] for k in known_keys()}
+    fams = []
+    for pre in PAIR_CLASSES:
+        fam = [q for q in cov if q.startswith(pre) and '.' not in q[len(pre):] and q not in dirty
+               and callables()[q][0] == 'method' and not q.endswith('.save')]
+        if len(fam) >= 2:
+            fams.append(fam)
+    return fams
 
 
 def coverage_report():
@@ -92,13 +136,17 @@ def coverage_report():
             cov.append(q)
         except A.Uncovered as e:
             unc[q] = str(e)
-    for q, why in H.INPLACE_BY_CONTRACT.items():
-        unc[q] = 'excluded: ' + why
     return cov, unc
 
 
 def _key(case):
-    return (case['fn'], case['seed'], repr(case.get('hist')), case.get('hseed'))
+    return (case['fn'], case.get('with'), case['seed'], repr(case.get('hist')), case.get('hseed'),
+            case.get('max_steps'), case.get('shuffle_all'))
+
+
+def label(case):
+    """name of the case's producer (pair cases: both producers)"""
+    return case['fn'] + ('&' + case['with'].rsplit('.', 1)[1] if case.get('with') else '')
 
 
 # ------------------------------------------------------------------ one observation
@@ -109,16 +157,32 @@ def _call(case):
     kind, fn, owner = callables()[q]
     self_obj, args, kwargs = A.build_call(q, case['seed'])
     _call.tags = list(A.build_call.last_tags)
-    source = {'self': self_obj, 'args': args, 'kwargs': kwargs}
+    full = {'self': self_obj, 'args': args, 'kwargs': kwargs}
+    source = _without_receiver(q, full)
+    q2 = case.get('with')
+    if q2:
+        # pair session: a second producer is applied to the *same* receiver object; its result
+        # joins the source side, so result 1 is checked against the receiver *and* result 2
+        kind2, fn2, owner2 = callables()[q2]
+        _, args2, kwargs2 = A.build_call(q2, case['seed'])
+        source = dict(source, args=list(args) + [None, list(args2), dict(kwargs2)])
     before = H.fingerprint(source)
     exc = None
     result = None
     try:
         with contextlib.redirect_stdout(io.StringIO()):
             result = A.invoke(kind, fn, owner, q, self_obj, args, kwargs)
+            if q2:
+                source['args'][len(args)] = A.invoke(kind2, fn2, owner2, q2, self_obj, args2, kwargs2)
     except Exception as e:  # noqa: BLE001  library exceptions are part of the result
         exc = type(e).__name__
-    after = H.fingerprint(source)
+    if q2 and exc is None:
+        sib = source['args'][len(args)]
+        source['args'][len(args)] = None
+        after = H.fingerprint(source)
+        source['args'][len(args)] = sib
+    else:
+        after = H.fingerprint(source)
     mutated = None if before == after else (H.fp_diff(before, after) or 'changed')
     _call.all_diffs = [] if before == after else H.fp_diffs(before, after)
     return source, result, exc, mutated
@@ -164,7 +228,7 @@ def observe(case):
     H.quiet()
     source, result, exc, mutated = _call(case)
     obs = {'exc': exc, 'tags': list(_call.tags), 'mutated': mutated, 'mutated_all': list(_call.all_diffs), 'steps': [], 'interference': [], 'kinds': [],
-           'heap': None, 'trace': None, 'hist': [], 'sharing': []}
+           'heap': None, 'trace': None, 'hist': [], 'sharing': [], 'share': []}
     if exc is not None:
         return obs
     ab = H.Abstraction()
@@ -174,6 +238,7 @@ def observe(case):
     if ab.too_big:
         obs['too_big'] = True
     obs['sharing'] = _sharing(ab.cells, sides)
+    obs['share'] = static_sharing(source, result)
     rng = random.Random(case.get('hseed', case['seed']) * 7919 + 13)
     hist = _plan_history(case, sides, rng, ab.cells)
 
@@ -187,6 +252,12 @@ def observe(case):
     heap = ab.heap_json()
     heap['src'] = sides['source'][0]
     heap['res'] = sides['result'][0]
+    if not case.get('with'):
+        req = K.request(case['fn'], source, result, sides, heap)
+        if req is not None:
+            # the constructor as a heap program: content predicted from the source heap, sharing derived
+            obs['ctor'] = {'req': req, 'real': H.dump_component('rdms', result),
+                           'share': [r[:3] for r in obs['share']]}
     trace = [dump_all()]
     done = []
     fps = {'source': H.fingerprint(source), 'result': H.fingerprint(result)}
@@ -237,6 +308,23 @@ def _sharing(cells, sides):
     return sorted(out)
 
 
+def static_sharing(source, result):
+    """[[argument path, result path, cause, writable]] — the static sharing graph of the call
+       (C12_share); `writable`: numpy accepts a write through at least one of the two sides"""
+    out = []
+    for ap, rp, cause in S.sharing(source, result):
+        wr = True
+        if cause in S.OBSERVABLE:
+            wr = False
+            for root, pth in ((result, rp), (source, ap)):
+                for node in S._find(root, pth):
+                    a = node if isinstance(node, np.ndarray) and node.dtype != object else S._first_array(node)
+                    if a is not None and a.flags.writeable:
+                        wr = True
+        out.append([ap, rp, cause, wr])
+    return out
+
+
 def mutation_cause(diffs):
     """the only argument change with its own class: the library-managed `index` entry written
        into a descriptor dictionary the *caller* passed (RDMs.__init__) — and only if that is
@@ -279,12 +367,24 @@ def generate(rng, tier):
         ASSUMPTIONS.append(f'{len(cov)} public callables exercised; documented in-place operations '
                            f'(history alphabet, not producers): ' + ', '.join(sorted(H.MUTATORS)))
     yield {'fn': WRITES, 'seed': 0}
+    yield {'fn': CTOR_SPECS, 'seed': 0}
     n_sets = 6 if tier == 'quick' else 24
     for q in cov:
         base = rng.randrange(1, 10 ** 6)
         for k in range(n_sets):
             # consecutive seeds: the factories rotate their discrete choices with the seed
             yield {'fn': q, 'seed': base + k, 'hseed': rng.randrange(10 ** 6)}
+    # pair sessions: two different producers applied to the same object; result 1 is checked
+    # against the object *and* against result 2 (siblings), in both directions
+    for fam in pair_families(cov):
+        n = len(fam)
+        for i, q1 in enumerate(fam):
+            partners = range(i + 1, n) if tier == 'thorough' else \
+                sorted({(i + 1 + rng.randrange(n - 1)) % n for _ in range(2)} - {i})
+            for j in partners:
+                base = rng.randrange(1, 10 ** 6)
+                for k in range(2 if tier == 'quick' else 6):
+                    yield {'fn': q1, 'with': fam[j], 'seed': base + k, 'hseed': rng.randrange(10 ** 6)}
     if tier == 'thorough':
         # short histories in a *random* order (no "writes first" discipline)
         for q in cov:
@@ -296,21 +396,33 @@ def generate(rng, tier):
 def run_impl(case):
     if case['fn'] == WRITES:
         return {'writes': W.source_write_sets()}
+    if case['fn'] == CTOR_SPECS:
+        return {'specs': K.source_specs()}
     o = _obs(case)
     if o['exc'] is not None:
         return {'exc': o['exc'], 'mutated': o['mutated']}
-    return {'mutated': o['mutated'], 'trace': o['trace'], 'n_steps': len(o['hist'])}
+    out = {'mutated': o['mutated'], 'trace': o['trace'], 'n_steps': len(o['hist']),
+           'share': [r[:3] for r in o['share'] if r[2] in S.OBSERVABLE and r[3]]}
+    if o.get('ctor'):
+        out['ctor_real'] = o['ctor']['real']
+        out['ctor_share'] = o['ctor']['share']
+    return out
 
 
 def model_requests(case):
     if case['fn'] == WRITES:
         return [{'op': 'c12.writes', 'disc': DISC}]
+    if case['fn'] == CTOR_SPECS:
+        return [{'op': 'c12.ctor_specs'}]
     o = _obs(case)
     if o['exc'] is not None or o['heap'] is None:
         return []
     h = o['heap']
-    return [{'op': 'c12.run', 'disc': DISC, 'cells': h['cells'], 'next': h['next'], 'src': h['src'], 'res': h['res'],
+    reqs = [{'op': 'c12.run', 'disc': DISC, 'cells': h['cells'], 'next': h['next'], 'src': h['src'], 'res': h['res'],
              'hist': [{k: v for k, v in s.items() if k not in ('side', 'ci')} for s in o['hist']]}]
+    if o.get('ctor'):
+        reqs.append(o['ctor']['req'])
+    return reqs
 
 
 def model_result(case, answers):
@@ -321,13 +433,23 @@ def model_result(case, answers):
         m = {k: sorted(set(v)) for k, v in a.items() if k != 'fill'}
         m['tds_sort_by'] = m['ds_sort_by']
         return {'writes': m}
+    if case['fn'] == CTOR_SPECS:
+        a = answers[0]
+        return a if isinstance(a, dict) and 'model_error' in a else {'specs': a}
     if not answers:
-        return {'mutated': None}
+        return {'mutated': None, 'share': []}
     a = answers[0]
     if isinstance(a, dict) and 'model_error' in a:
         return a
-    return {'mutated': None, 'sep': a['sep'], 'shared': a['shared'],
-            'trace': [[H.canon_dump(d) for d in t] for t in a['trace']]}
+    # `share`: what `Producer.fresh` (theorem fresh_producer_sep) demands — no node of the result
+    # is, or overlaps, a node of the arguments
+    out = {'mutated': None, 'sep': a['sep'], 'shared': a['shared'], 'share': [],
+           'trace': [[H.canon_dump(d) for d in t] for t in a['trace']]}
+    if len(answers) > 1:
+        if isinstance(answers[1], dict) and 'model_error' in answers[1]:
+            return answers[1]
+        out['ctor'] = answers[1]
+    return out
 
 
 def compare(case, impl, model):
@@ -339,18 +461,28 @@ def compare(case, impl, model):
                 return (f'in-place operation {k}: the source text writes {impl["writes"].get(k)}, '
                         f'the Lean model (compile) writes {model["writes"][k]}')
         return None
+    if case['fn'] == CTOR_SPECS:
+        return K.compare_specs(impl['specs'], model['specs'])
+    fn = label(case)
     if impl.get('mutated'):
-        return f'{case["fn"]} changed its argument: {impl["mutated"]}'
+        return f'{fn} changed its argument: {impl["mutated"]}'
     if 'exc' in impl:
         return None
+    if impl.get('share') != model.get('share'):
+        return (f'{fn}: the result is / overlaps storage of an argument (argument path, result path, '
+                f'cause): {impl["share"][:4]}')
     if not model['sep']:
-        return (f'{case["fn"]}: result and arguments share cells that a documented in-place operation '
+        return (f'{fn}: result and arguments share cells that a documented in-place operation '
                 f'writes: {_shared_names(case, model["shared"])}')
+    if 'ctor' in model:
+        d = K.compare(case['fn'], model['ctor'], impl['ctor_real'], impl['ctor_share'])
+        if d:
+            return d
     if impl['trace'] != model['trace']:
         for k, (a, b) in enumerate(zip(impl['trace'], model['trace'])):
             if a != b:
-                return f'{case["fn"]}: heap model and real objects differ after step {k} ({_first(a, b)})'
-        return f'{case["fn"]}: trace lengths differ'
+                return f'{fn}: heap model and real objects differ after step {k} ({_first(a, b)})'
+        return f'{fn}: trace lengths differ'
     return None
 
 
@@ -377,27 +509,101 @@ def _shared_names(case, shared):
 
 
 
+_KNOWN_KEYS = None
+
+
+def known_keys():
+    """share keys of the known-finding records (ROOT/known_findings.jsonl).  Used only to *order*
+       the oracle's report — a record that no known finding names comes first, so that a new
+       sharing path in a callable that already has a known finding is what run_check gets to
+       judge; the verdict known / fails stays with run_check"""
+    global _KNOWN_KEYS
+    if _KNOWN_KEYS is None:
+        import json
+        import os
+        _KNOWN_KEYS = set()
+        path = os.path.join(os.path.dirname(os.path.abspath(__file__)), '..', '..', 'known_findings.jsonl')
+        if os.path.exists(path):
+            for l in open(path):
+                l = l.strip()
+                if l and not l.startswith('#'):
+                    r = json.loads(l)
+                    if r.get('property') == PROPERTY and r.get('kind') == 'known':
+                        k = r.get('match', {}).get('share_key', [])
+                        _KNOWN_KEYS.update(k if isinstance(k, list) else [k])
+    return _KNOWN_KEYS
+
+
+def mutation_records(fn, diffs):
+    """one record per changed path of the arguments: [path, '-', cause]; the argument position is
+       kept, positions inside containers are normalised to [*] (as in C12_share)"""
+    import re
+    pat = re.compile(r"\['(rdm|pattern)_descriptors'\]\['index'\] added$")
+    out = []
+    for d in diffs:
+        d = str(d)
+        cause = 'writes-caller-descriptor-dict' if pat.search(d) else 'mutates-argument'
+        pth = d.split(' array content')[0]
+        m = re.match(r"(\['args'\]\[\d+\])(.*)$", pth)
+        head, tail = (m.group(1), m.group(2)) if m else ('', pth)
+        pth = head + re.sub(r'\[\d+\]', '[*]', tail)
+        # same spelling as the static sharing graph: self.x / args[0].x / kw['name'].x
+        pth = re.sub(r"^\['self'\]", 'self', pth)
+        pth = re.sub(r"^\['args'\]\[(\d+)\]", r'args[\1]', pth)
+        pth = re.sub(r"^\['kwargs'\]\[('[^']*')\]", r'kw[\1]', pth)
+        rec = [pth, '-', cause]
+        if rec not in out:
+            out.append(rec)
+    return out
+
+
+def _unknown_first(fn, recs):
+    kk = known_keys()
+    return sorted(recs, key=lambda r: S.key(fn, r) in kk)
+
+
 def oracle(case):
-    """direct transcription of the property on the real code: (1) the call leaves every argument
-       bit-identical (library-managed `index` of RDMs excluded), (2) no in-place operation of the
-       history on one side changes anything readable from the other side"""
-    if case['fn'] == WRITES:
-        return None     # a changed write set is not itself a violation; run_check then searches
+    """direct transcription of the property on the real code:
+       (1) the call leaves every argument bit-identical (library-managed `index` of RDMs excluded);
+       (2) for every node of the result that is, or overlaps the memory of, a node of an argument
+           (found recursively through lists / tuples / dicts / Result / model objects): an array
+           write through one side must not be visible through the other;
+       (3) no documented in-place operation of the history on one side changes anything readable
+           from the other side.
+       The reported violation carries `share_key` = callable | argument path | result path | cause."""
+    if case['fn'] in PSEUDO:
+        return None     # a changed write set / constructor spec is not itself a violation; run_check then searches
     o = observe(case)
-    if not o['mutated'] and not o['interference'] and \
+    fn = label(case)
+    if o['mutated']:
+        recs = _unknown_first(fn, mutation_records(fn, o.get('mutated_all') or [o['mutated']]))
+        r = recs[0]
+        return {'what': f'{fn} modifies its argument', 'observed': r[0],
+                'expected': 'arguments bit-identical after the call',
+                'features': {'fn': fn, 'kind': 'mutates-argument', 'cause': r[2], 'share_key': S.key(fn, r),
+                             'all_changed': [x[0] for x in recs][:8]}}
+    recs = _unknown_first(fn, [r[:3] for r in o['share'] if r[2] in S.OBSERVABLE])
+    for r in recs[:6]:
+        H.quiet()
+        source, result, exc, _ = _call(case)     # fresh objects: confirm destroys them
+        if exc is not None:
+            break
+        seen = S.confirm(source, result, r, H.fingerprint)
+        if seen:
+            return {'what': f'{fn}: result and argument are not independent ({r[2]})',
+                    'observed': seen, 'expected': 'an array write through one side is not visible through the other',
+                    'features': {'fn': fn, 'kind': 'interference', 'op': 'fill', 'on': seen['on'], 'cause': r[2],
+                                 'share_key': S.key(fn, r),
+                                 'all_shared': ['|'.join(x) for x in recs][:12]}}
+    if not o['interference'] and \
             (case.get('hist') is not None or case.get('max_steps') or case.get('shuffle_all')):
         # the property quantifies over every later history: a replayed / shrunk history that
         # shows nothing does not clear this call — try the full planned history as well
         o = observe({k: v for k, v in case.items() if k not in ('hist', 'max_steps', 'shuffle_all')})
-    fn = case['fn']
-    if o['mutated']:
-        return {'what': f'{fn} modifies its argument', 'observed': o['mutated'],
-                'expected': 'arguments bit-identical after the call',
-                'features': {'fn': fn, 'kind': 'mutates-argument', 'cause': mutation_cause(o.get('mutated_all') or [o['mutated']])}}
     if o['interference']:
         # an in-place operation other than an array write that is visible on the other side
-        # although the two sides are different objects means a *dictionary was written in place*:
-        # impossible for the current write discipline (rebind), so it is reported first
+        # although the two sides are different objects means a *dictionary / list was written in
+        # place*: impossible for the current write discipline (rebind), so it is reported first
         def cause_of(i):
             if 'object' in o.get('sharing', []):
                 return 'same-object'
@@ -406,16 +612,20 @@ def oracle(case):
             return 'shared-descriptor-dict'
         ranked = sorted(o['interference'], key=lambda i: (cause_of(i) != 'shared-descriptor-dict', i['step']))
         i = ranked[0]
+        comp, where = i['component'], str(i['where']).split(' array content')[0].replace(' changed', '')
+        rec = [where, comp, cause_of(i)] if i['on'] == 'result' else [comp, where, cause_of(i)]
         return {'what': f'{fn}: result and argument are not independent ({i["op"]})',
                 'observed': i, 'expected': f'{i["changed"]} unchanged by an in-place operation on the {i["on"]}',
                 'features': {'fn': fn, 'kind': 'interference', 'op': i['op'], 'on': i['on'],
-                             'cause': cause_of(i), 'sharing': '+'.join(o.get('sharing', []))}}
+                             'cause': cause_of(i), 'sharing': '+'.join(o.get('sharing', [])),
+                             'share_key': S.key(fn, rec)}}
     return None
 
 
 def features(case, impl):
-    if case['fn'] == WRITES:
-        return {'fn': WRITES, 'package': 'source-text', 'branches': ['tie:write-sets']}
+    if case['fn'] in PSEUDO:
+        return {'fn': case['fn'], 'package': 'source-text',
+                'branches': ['tie:write-sets' if case['fn'] == WRITES else 'tie:ctor-specs']}
     o = _obs(case)
     br = ['call:raised' if o['exc'] else 'call:returned'] + ['arg:' + t for t in o.get('tags', [])]
     for s in o['hist']:
@@ -427,29 +637,36 @@ def features(case, impl):
             br.append('result:' + k)
         if not ks:
             br.append('result:scalar-or-other')
-    return {'fn': case['fn'], 'package': case['fn'].split('.')[1], 'exc': o['exc'],
+    if case.get('with'):
+        br.append('session:pair')
+    if o.get('ctor'):
+        br.append('tie:ctor:' + o['ctor']['req']['ctor'])
+    for r in o['share']:
+        br.append('share:' + r[2])
+    return {'fn': label(case), 'package': case['fn'].split('.')[1], 'exc': o['exc'],
             'n_steps': len(o['hist']), 'sharing': '+'.join(o['sharing']) or 'none',
+            'share': '+'.join(sorted({r[2] for r in o['share']})) or 'none',
             'branches': sorted(set(br))}
 
 
 def nontrivial_key(case, impl):
-    if case['fn'] == WRITES:
-        return [WRITES]
+    if case['fn'] in PSEUDO:
+        return [case['fn']]
     o = _obs(case)
     if o['exc'] is not None or not o['hist']:
         return None
-    return [case['fn'], case['seed'], [(s['side'], s['ci'], s['op']) for s in o['hist']]]
+    return [label(case), case['seed'], [(s['side'], s['ci'], s['op']) for s in o['hist']]]
 
 
 def shrink(case, still_fails):
     """minimal history: a single step (or none, for argument mutation)"""
-    if case['fn'] == WRITES:
+    if case['fn'] in PSEUDO:
         return case
     o = observe(case)
     base = {k: v for k, v in case.items() if k not in ('hist', 'max_steps')}
-    if o['mutated']:
-        c = dict(base, hist=[])
-        return c if still_fails(c) else case
+    c = dict(base, hist=[])
+    if still_fails(c):
+        return c          # argument mutation, identity or overlapping storage: no history needed
     obj = 'object' in o.get('sharing', [])
     # same ranking as the oracle: a dictionary written in place is the most telling step
     for i in sorted(o['interference'], key=lambda i: (obj or i['op'] == 'fill', i['step'])):
